@@ -127,6 +127,12 @@ def main(argv):
     try:
         mod = _load(modname, symbolic=(replay is None))
         ob = mod.REG.obs[obid]
+        # the module-level tables (vendor list, uploaded tag databases, harness closures) are immutable from here on: keep the
+        # cyclic GC from re-traversing them on every collection (measured: 50 ms pauses attributed to whatever allocates)
+        import gc
+        gc.collect()
+        gc.freeze()
+        gc.set_threshold(20000, 20, 20)
         out["engine"] = ob.engine
         if replay is not None:
             if ob.engine == "A":
